@@ -673,6 +673,8 @@ def install(E):
     X["_ZSt24__throw_out_of_range_fmtPKcz"] = thrower("_ZTISt12out_of_range")
     X["_ZSt20__throw_out_of_rangePKc"] = thrower("_ZTISt12out_of_range")
     X["_ZSt16__throw_bad_castv"] = thrower("_ZTISt8bad_cast")
+    install_streams(E)
+    install_printf(E)
 
 
 def _pname(st, p):
@@ -682,3 +684,283 @@ def _pname(st, p):
 
 def _raise_sym(t):
     raise S.SymByte(t)
+
+
+# ---------------------------------------------------------------------------------------------------
+# iostream model: a stream object is identified by its address; its content is a python list of byte
+# values (concrete ints or z3 BV8) and number tokens.  Only what the API layer needs is modelled; anything
+# else stays "unmodelled external" and is reported loudly.
+def install_streams(E):
+    X = E.externs
+    from .irsym import Fork
+
+    def key(p):
+        if not isinstance(p.off, int):
+            raise EngineError("symbolic stream pointer")
+        return (p.obj, p.off)
+
+    def buf(st, p, create=True):
+        s = st.user.get("streams")
+        s = dict(s) if s else {}
+        k = key(p)
+        if k not in s:
+            if not create:
+                return None
+            s[k] = []
+        else:
+            s[k] = list(s[k])
+        st.user["streams"] = s
+        return s[k]
+
+    def vtable(E, st, kind):
+        name = "%vt_" + kind
+        oid = st.globals.get(name)
+        if oid is None:
+            o = E.new_obj(st, 64, name="vtable(model) " + kind, zero=True, kind="global")
+            o.cells[0] = (Ptr("@vfmodel_%s_D1" % kind, 0), 8)
+            o.cells[8] = (Ptr("@vfmodel_%s_D0" % kind, 0), 8)
+            st.globals[name] = oid = o.id
+        return Ptr(oid, 0)
+
+    def ctor(kind):
+        def f(E, st, fr, ins, a):
+            this = a[0]
+            E.store(st, this, ir.I8P, vtable(E, st, kind))
+            b = buf(st, this)
+            del b[:]
+            kinds = dict(st.user.get("stream_kind") or {})
+            kinds[key(this)] = kind
+            st.user["stream_kind"] = kinds
+            if kind == "ostringstream":
+                sb = E.padd(this.off, 8)
+                for off in (8, 16, 24, 32, 40, 48):
+                    E.store(st, Ptr(this.obj, E.padd(sb, off)), ir.I8P, NULL)
+                E.store(st, Ptr(this.obj, E.padd(sb, 64)), ir.I32, 16)
+                E.make_string(E, st, Ptr(this.obj, E.padd(sb, 72)), [])
+            return None
+        return f
+
+    def dtor(kind, deleting):
+        def f(E, st, fr, ins, a):
+            this = a[0]
+            s = dict(st.user.get("streams") or {})
+            s.pop(key(this), None)
+            st.user["streams"] = s
+            if deleting:
+                X["free"](E, st, fr, ins, [this])
+            return None
+        return f
+
+    for kind, mang in (("ostringstream", "NSt7__cxx1119basic_ostringstreamIcSt11char_traitsIcESaIcEE"),
+                       ("istringstream", "NSt7__cxx1119basic_istringstreamIcSt11char_traitsIcESaIcEE"),
+                       ("ofstream", "NSt14basic_ofstreamIcSt11char_traitsIcEE"),
+                       ("ifstream", "NSt14basic_ifstreamIcSt11char_traitsIcEE")):
+        X["_Z%sC1Ev" % mang] = ctor(kind)
+        X["_Z%sC2Ev" % mang] = ctor(kind)
+        X["_Z%sD1Ev" % mang] = dtor(kind, False)
+        X["_Z%sD2Ev" % mang] = dtor(kind, False)
+        X["_Z%sD0Ev" % mang] = dtor(kind, True)
+        X["vfmodel_%s_D1" % kind] = dtor(kind, False)
+        X["vfmodel_%s_D0" % kind] = dtor(kind, True)
+
+    def open_ctor(kind):
+        def f(E, st, fr, ins, a):
+            ctor(kind)(E, st, fr, ins, a)
+            name = E.cstring(st, a[1]).decode(errors="replace")
+            st.trace.append(("file.open", kind, name, a[2]))
+            files = dict(st.user.get("files") or {})
+            files[key(a[0])] = name
+            st.user["files"] = files
+            return None
+        return f
+    X["_ZNSt14basic_ofstreamIcSt11char_traitsIcEEC1EPKcSt13_Ios_Openmode"] = open_ctor("ofstream")
+    X["_ZNSt14basic_ifstreamIcSt11char_traitsIcEEC1EPKcSt13_Ios_Openmode"] = open_ctor("ifstream")
+
+    def put_bytes(st, os_, data):
+        b = buf(st, os_)
+        b.extend(data)
+        kinds = st.user.get("stream_kind") or {}
+        if kinds.get(key(os_)) == "ostringstream":
+            sync(E, st, os_, b)
+        return os_
+
+    def sync(E, st, os_, b):
+        """mirror the content into the object's basic_stringbuf so that header-inlined str() works:
+        ostringstream = {vptr, stringbuf{vptr, in_beg, in_cur, in_end, out_beg, out_cur, out_end, locale, mode, string}}"""
+        sb = E.padd(os_.off, 8)
+        n = len(b)
+        if any(isinstance(x, tuple) for x in b):
+            raise EngineError("symbolic number formatted into an ostringstream (unsupported)")
+        o = E.new_obj(st, n + 1, name="heap%d" % E.next_obj, kind="heap")
+        for i, x in enumerate(b):
+            o.cells[i] = (x, 1)
+        o.cells[n] = (0, 1)
+        P_ = lambda off: Ptr(os_.obj, E.padd(sb, off))
+        E.store(st, P_(32), ir.I8P, Ptr(o.id, 0))
+        E.store(st, P_(40), ir.I8P, Ptr(o.id, n))
+        E.store(st, P_(48), ir.I8P, Ptr(o.id, n))
+
+    def read_n(E, st, p, n):
+        out = []
+        for i in range(n):
+            o, off = E.deref(st, Ptr(p.obj, E.padd(p.off, i)), 1)
+            v = E._byte_of(o, off)
+            if v is None:
+                raise S.MemError("stream insert reads uninitialised byte")
+            out.append(v)
+        return out
+
+    def insert(E, st, fr, ins, a):  # __ostream_insert(os, s, n)
+        n = a[2]
+        if is_sym(n):
+            raise S.SymOffset(bv(n, 64))
+        return put_bytes(st, a[0], read_n(E, st, a[1], n))
+    X["_ZSt16__ostream_insertIcSt11char_traitsIcEERSt13basic_ostreamIT_T0_ES6_PKS3_l"] = insert
+
+    def ins_cstr(E, st, fr, ins, a):
+        if a[1].is_null():
+            return a[0]
+        return put_bytes(st, a[0], list(E.cstring(st, a[1])))
+    X["_ZStlsISt11char_traitsIcEERSt13basic_ostreamIcT_ES5_PKc"] = ins_cstr
+
+    def ins_int(signed, bits):
+        def f(E, st, fr, ins, a):
+            v = a[1]
+            if is_sym(v):
+                return put_bytes(st, a[0], [("int", v)])
+            v = to_signed(v, bits) if signed else v
+            return put_bytes(st, a[0], list(str(v).encode()))
+        return f
+    X["_ZNSolsEi"] = ins_int(True, 32)
+    X["_ZNSo9_M_insertIlEERSoT_"] = ins_int(True, 64)
+    X["_ZNSo9_M_insertImEERSoT_"] = ins_int(False, 64)
+    X["_ZNSo9_M_insertIbEERSoT_"] = ins_int(False, 8)
+
+    def ins_double(E, st, fr, ins, a):
+        return put_bytes(st, a[0], [("double", a[1])])
+    X["_ZNSo9_M_insertIdEERSoT_"] = ins_double
+
+    def put(E, st, fr, ins, a):
+        c = a[1]
+        if not is_sym(c):
+            c &= 255
+        return put_bytes(st, a[0], [c])
+    X["_ZNSo3putEc"] = put
+
+    def flush(E, st, fr, ins, a):
+        return a[0]
+    X["_ZNSo5flushEv"] = flush
+
+    def endl(E, st, fr, ins, a):
+        return put_bytes(st, a[0], [10])
+    X["_ZSt4endlIcSt11char_traitsIcEERSt13basic_ostreamIT_T0_ES6_"] = endl
+
+    def tellp(E, st, fr, ins, a):
+        b = buf(st, a[0])
+        return [len(b), 0]
+    X["_ZNSo5tellpEv"] = tellp
+
+    def make_string(E, st, dst, data):
+        """construct a std::string at dst (uninitialised storage) holding data (list of byte values)"""
+        n = len(data)
+        if n < 16:
+            bufp = Ptr(dst.obj, E.padd(dst.off, 16))
+        else:
+            o = E.new_obj(st, n + 1, name="heap%d" % E.next_obj, kind="heap")
+            bufp = Ptr(o.id, 0)
+            E.store(st, Ptr(dst.obj, E.padd(dst.off, 16)), ir.I64, n)
+        E.store(st, dst, ir.I8P, bufp)
+        E.store(st, Ptr(dst.obj, E.padd(dst.off, 8)), ir.I64, n)
+        for i, b in enumerate(data):
+            if isinstance(b, tuple):
+                raise EngineError("number token inside a stream turned into a string (unsupported)")
+            E.store(st, Ptr(bufp.obj, E.padd(bufp.off, i)), ir.I8, b)
+        E.store(st, Ptr(bufp.obj, E.padd(bufp.off, n)), ir.I8, 0)
+
+    E.make_string = make_string
+
+    def oss_str(E, st, fr, ins, a):  # sret string*, this
+        b = buf(st, a[1])
+        make_string(E, st, a[0], list(b))
+        return None
+    X["_ZNKSt7__cxx1119basic_ostringstreamIcSt11char_traitsIcESaIcEE3strEv"] = oss_str
+
+    def is_open(E, st, fr, ins, a):
+        return E.fresh_bv("is_open", 8) == 1
+    X["_ZNKSt12__basic_fileIcE7is_openEv"] = is_open
+
+    def ios_clear(E, st, fr, ins, a):
+        return None
+    X["_ZNSt9basic_iosIcSt11char_traitsIcEE5clearESt12_Ios_Iostate"] = ios_clear
+
+    def ios_init(E, st, fr, ins, a):
+        return None
+    X["_ZNSt8ios_base4InitC1Ev"] = ios_init
+    X["_ZNSt6localeD1Ev"] = ios_init
+    X["_ZNSt6localeC1Ev"] = ios_init
+    X["_ZNSt8ios_baseD2Ev"] = ios_init
+    X["_ZNSt8ios_baseC2Ev"] = ios_init
+    X["_ZNSt8ios_base4InitD1Ev"] = ios_init
+
+
+def c_format(E, st, fmt, args):
+    """printf-style formatting of concrete arguments -> bytes"""
+    import re
+    out = bytearray()
+    i = 0
+    ai = 0
+    f = fmt.decode("latin1")
+    for m in re.finditer(r"%([-+ #0]*)(\*|\d+)?(?:\.(\*|\d+))?(hh|h|ll|l|z|L)?([diuxXcsfFeEgG%])", f):
+        out += f[i:m.start()].encode("latin1")
+        i = m.end()
+        flags, width, prec, length, conv = m.groups()
+        if conv == "%":
+            out += b"%"
+            continue
+        if width == "*":
+            width = str(to_signed(args[ai], 32)); ai += 1
+        if prec == "*":
+            prec = str(to_signed(args[ai], 32)); ai += 1
+        v = args[ai]; ai += 1
+        if is_sym(v):
+            raise EngineError("symbolic argument formatted by printf-family call")
+        spec = "%" + flags + (width or "") + ("." + prec if prec is not None else "")
+        if conv in "di":
+            bits = 64 if length in ("l", "ll", "z") else 32
+            out += ((spec + "d") % to_signed(v & mask(bits), bits)).encode("latin1")
+        elif conv in "uxX":
+            bits = 64 if length in ("l", "ll", "z") else 32
+            out += ((spec + ("d" if conv == "u" else conv)) % (v & mask(bits))).encode()
+            continue
+        elif conv == "c":
+            out += ((spec + "c") % chr(v & 255)).encode("latin1")
+        elif conv == "s":
+            sv = "(null)" if v.is_null() else E.cstring(st, v).decode("latin1")
+            out += ((spec + "s") % sv).encode("latin1")
+        else:
+            out += ((spec + conv) % float(v)).encode("latin1")
+        if isinstance(out, str):
+            pass
+    out += f[i:].encode("latin1")
+    return bytes(out)
+
+
+def install_printf(E):
+    X = E.externs
+
+    def snprintf(E, st, fr, ins, a):
+        n = a[1]
+        if is_sym(n):
+            raise S.SymOffset(bv(n, 64))
+        data = c_format(E, st, E.cstring(st, a[2]), a[3:])
+        if n > 0:
+            w = data[:n - 1] + b"\0"
+            E.write_bytes(st, a[0], w)
+        return len(data) & mask(32)
+    X["snprintf"] = snprintf
+
+    def sprintf(E, st, fr, ins, a):
+        data = c_format(E, st, E.cstring(st, a[1]), a[2:])
+        E.write_bytes(st, a[0], data + b"\0")
+        return len(data) & mask(32)
+    X["sprintf"] = sprintf
